@@ -116,9 +116,12 @@ func c12Trees(c *vrep.Ctx) {
 			options = append(options, c12File{d, "link.txt", "\x00LINK:" + c12LinkShort}, c12File{d, "linkbig.txt", "\x00LINK:" + c12BigBody(5000)})
 		}
 	}
-	leaves := []string{"corp", "nest/ed"}
+	// the third directory name is made of characters that mean something in a file-name pattern
+	// (its siblings "cop" and "co1p" exist next to it, with a loadable file of their own)
+	leaves := []string{"corp", "nest/ed", "co[1]p*"}
+	patFiles := c.Pick(1, 2)
 	queries := [][]byte{[]byte("zqa aa bb cc aa bb zqb"), []byte("zqa cc bb aa cc bb aa"), []byte("gg hh ii gg hh\njj kk ll jj kk"), []byte("zqa")}
-	c.R.Rule = fmt.Sprintf("all sets of <=%d files drawn from depth 1..5 x names {a.txt, b.txt, x.md, txt, y.ptxt, empty e.txt, 0.txt (sorts before the directories), a directory named dir.txt} plus 66 KB, 135 KB and 1.05 MB files and two symbolic links to regular files outside the tree (short and 5 KB targets) at variant depth (%d options), built in a private temp dir, x %d spellings of the directory (absolute/relative, ./ prefix, trailing separator, doubled separator, through .., and '.', './', '../name' with the directory as cwd) x {single, multi-component} directory; LoadLicenses must not panic or fail; files shallower than category/name/variant or not ending in 'txt' are ignored; if every remaining file sits at depth 3 the corpus (keys and word sequences, white-box) and Match on a query menu equal a classifier built by AddContent per file; non-trivial = distinct (tree, spelling) cases with at least one loadable file", maxFiles, len(options), len(c12Spellings))
+	c.R.Rule = fmt.Sprintf("all sets of <=%d files drawn from depth 1..5 x names {a.txt, b.txt, x.md, txt, y.ptxt, empty e.txt, 0.txt (sorts before the directories), a directory named dir.txt} plus 66 KB, 135 KB and 1.05 MB files and two symbolic links to regular files outside the tree (short and 5 KB targets) at variant depth (%d options), built in a private temp dir, x %d spellings of the directory (absolute/relative, ./ prefix, trailing separator, doubled separator, through .., and '.', './', '../name' with the directory as cwd) x {single, multi-component, pattern-character} directory name (the last with siblings its name would match as a pattern); LoadLicenses must not panic or fail; files shallower than category/name/variant or not ending in 'txt' are ignored; if every remaining file sits at depth 3 the corpus (keys and word sequences, white-box) and Match on a query menu equal a classifier built by AddContent per file; non-trivial = distinct (tree, spelling) cases with at least one loadable file", maxFiles, len(options), len(c12Spellings))
 	c.Bound("max_files", maxFiles)
 	c.Bound("spellings", len(c12Spellings))
 	tmp, err := os.MkdirTemp("", "verif-c12-")
@@ -147,6 +150,11 @@ func c12Trees(c *vrep.Ctx) {
 		if r.Scout() {
 			return
 		}
+		if strings.ContainsAny(leaf, "[*?") && len(files) > patFiles {
+			// the pattern-character directory gets the smaller file sets only
+			r.Note = map[string]interface{}{"skip": true}
+			return
+		}
 		for _, f := range files {
 			// the large files are combined with two spellings only (absolute, '.'): they cost 100x
 			if strings.HasPrefix(f.name, "big") && sp.name != "absolute" && sp.name != "dot (cwd is the directory)" {
@@ -171,6 +179,15 @@ func c12Trees(c *vrep.Ctx) {
 		root := filepath.Join(parent, leaf)
 		os.MkdirAll(root, 0o755)
 		defer os.RemoveAll(parent)
+		if strings.ContainsAny(leaf, "[*?") {
+			for _, sib := range []string{"co1p", "co[1]p", "co[1]pp", "cop"} {
+				if sib != leaf {
+					q := filepath.Join(parent, sib, c12Comps[0], c12Comps[1])
+					os.MkdirAll(q, 0o755)
+					os.WriteFile(filepath.Join(q, "sibling.txt"), []byte("zqa sibling words only"), 0o644)
+				}
+			}
+		}
 		var want *Classifier = NewClassifier(0.8)
 		comparable := true
 		loadable := 0
